@@ -1303,6 +1303,8 @@ class Module(ABC):
             # param sharing).
             synapse_inds = self.base.edges.groupby("type").rank()["global_edge_index"]
             synapse_inds = (synapse_inds.astype(int) - 1).to_numpy()
+            # Groups of unequal size are padded with `-1` by `make_trainable()`.
+            is_padding = np.asarray(inds) < 0
             if key in self.base.synapse_param_names:
                 inds = synapse_inds[inds]
 
@@ -1310,8 +1312,10 @@ class Module(ABC):
                 # `inds` is of shape `(num_params, num_comps_per_param)`.
                 # `set_param` is of shape `(num_params,)`
                 # We need to unsqueeze `set_param` to make it `(num_params, 1)` for the
-                # `.set()` to work. This is done with `[:, None]`.
-                params[key] = params[key].at[inds].set(set_param[:, None])
+                # `.set()` to work. This is done with `[:, None]`. Padded indices are
+                # moved out of bounds and dropped.
+                inds = jnp.where(is_padding, len(params[key]), inds)
+                params[key] = params[key].at[inds].set(set_param[:, None], mode="drop")
 
         # Compute conductance params and add them to the params dictionary.
         params["axial_conductances"] = self.base._compute_axial_conductances(
@@ -1360,7 +1364,9 @@ class Module(ABC):
                 # `set_param` is of shape `(num_params,)`
                 # We need to unsqueeze `set_param` to make it `(num_params, 1)` for the
                 # `.set()` to work. This is done with `[:, None]`.
-                states[key] = states[key].at[inds].set(set_param[:, None])
+                # Padded indices (`-1`) are moved out of bounds and dropped.
+                inds = jnp.where(np.asarray(inds) < 0, len(states[key]), inds)
+                states[key] = states[key].at[inds].set(set_param[:, None], mode="drop")
 
         # Add to the states the initial current through every channel.
         states, _ = self.base._channel_currents(
